@@ -148,16 +148,21 @@ def run(tier: str) -> int:
                 meta.append((fam, "generic", p["prog"]))
                 continue
             for d in dialects[fam]:
-                env = execb.Env(qc[d])
-                q, excs = env.run(p["calls"])
-                rexc = ""
-                try:
-                    str(q)
-                except Exception as ex:  # noqa
-                    rexc = type(ex).__name__
-                events.append({"tid": len(events), "fam": fam, "d": d, "calls": p["calls"], "excs": excs, "rendered": True, "rexc": rexc,
-                               "expect": {"calls": [], "render": ""}})
-                meta.append((fam, d, p["calls"]))
+                # second pass: the same chain executed inside a branching history (sibling continuations are derived from
+                # every intermediate builder and discarded) - the guard outcomes are a function of the chain alone
+                for decoys in ((False, True) if d == dialects[fam][0] else (False,)):
+                    env = execb.Env(qc[d])
+                    q, excs = env.run(p["calls"], decoys=decoys)
+                    if decoys:
+                        env.decoys(q)
+                    rexc = ""
+                    try:
+                        str(q)
+                    except Exception as ex:  # noqa
+                        rexc = type(ex).__name__
+                    events.append({"tid": len(events), "fam": fam, "d": d, "calls": p["calls"], "excs": excs, "rendered": True, "rexc": rexc,
+                                   "expect": {"calls": [], "render": ""}})
+                    meta.append((fam + ("+siblings" if decoys else ""), d, p["calls"]))
     results = tlc.judge_shards("J_C14Gen", "CONSTANT SrcTab <- G_SrcTab\nINIT Init\nNEXT Next\n", events, shard=max(500, len(events) // 16 + 1),
                                heap="3g", extra_files={"J_C14Gen.tla": judge_module()})
     rep.add_tlc(results)
@@ -169,8 +174,10 @@ def run(tier: str) -> int:
     for res in results:
         for v in res.json_tagged("V"):
             fam, d, prog = meta[v["tid"]]
+            sib = fam.endswith("+siblings")
+            fam = fam.replace("+siblings", "")
             for step, kind, want, got in sorted(v["bad"]):
-                rep.discrepancy([signature(fam, prog, step, kind, want, got)],
+                rep.discrepancy([signature(fam, prog, step, kind, want, got) + (["with-sibling-continuations"] if sib else [])],
                                 {"family": fam, "dialect": d, "program": prog, "step": step, "expected": want or "no exception", "observed": got or "no exception"},
                                 what=f"guard {kind}: expected {want or 'no exception'}, observed {got or 'no exception'}")
     for k in (0, len(meta) // 2, len(meta) - 1):
